@@ -2,7 +2,7 @@
 
 The lookup functions are `match` tables over literals, so they are decided for
 ALL strings and all 256 i8 values from the extracted arms."""
-from . import fold, model, oracle, ws
+from . import fold, intdom, model, oracle, term as T, ws
 from .model import ModelError, peel
 
 SIP = "quantities::si_prefixes::SIPrefix"
@@ -117,37 +117,89 @@ def run(ctx):
         dup = {k: vs for k, vs in inv.items() if len(vs) > 1}
         ctx.ob("injective", label, not dup, "%s is not injective: %s" % (label, dup), where)
     # 3/4. lookups decided on all inputs
-    for fn, key_tbl, kind in (("from_abbr", {v: abbrs[v][1] for v in variants}, "str"),
-                              ("from_exp", {v: discr[v] for v in variants}, "int")):
-        b = U.body.get(SIP + "::" + fn)
-        if b is None:
-            raise ModelError("anchor", "SIPrefix::%s has no body" % fn, where)
-        arms = arg_match_table(U, b, "lookup", "SIPrefix::" + fn)
-        first = {}
-        default = None
-        for pv, val in arms:
-            if pv[0] == "default":
-                if default is None:
-                    default = val
-                break
-            k = pv[1]
-            if k not in first:
-                first[k] = val
-        ctx.ob("lookup-default", fn, default == ("none",), "inputs matching no literal arm do not map to None (%r)" % (default,), b["span"])
-        want = {key: v for v, key in key_tbl.items()}
-        for key, v in sorted(want.items(), key=lambda kv: repr(kv[0])):
-            got = first.get(key)
-            exp_v = ("some", ("variant", SIP, v))
-            ctx.ob("lookup-hit", "%s/%r" % (fn, key), got == exp_v,
-                   "%s(%r) = %r, but %r is the %s of %s" % (fn, key, got if got is not None else default, key, "abbreviation" if kind == "str" else "exponent", v), b["span"])
-        for key in first:
-            if key not in want:
-                ctx.fail("lookup-miss", "%s/%r" % (fn, key), "%s(%r) = %r although no prefix has that %s" % (fn, key, first[key], "abbreviation" if kind == "str" else "exponent"), b["span"])
-        if kind == "int":
-            # decided for all 256 values: arms cover exactly the 25 exponents, the rest is the default
-            n_none = sum(1 for x in range(-128, 128) if x not in first)
-            ctx.extra["from_exp_values_decided"] = 256
-            ctx.extra["from_exp_none_values"] = n_none
+    # from_abbr: the gated summary may test the argument only by equality with
+    # string literals, so it is a function on {the literals} + {any other string}
+    b = U.body.get(SIP + "::from_abbr")
+    if b is None:
+        raise ModelError("anchor", "SIPrefix::from_abbr has no body", where)
+    try:
+        outs = T.Evaluator(U, keep_tags=False).summarize(b)
+    except T.Unsupported as x:
+        raise ModelError("lookup", "SIPrefix::from_abbr: unsupported construct %s" % x.what, x.sp or b["span"])
+    p0 = ("p", 0, b["params"][0]["pat"]["name"])
+    lits = set()
+    for at in T.guard_atoms(outs):
+        a = T.canon(at)
+        if a[0] == "==" and p0 in (a[1], a[2]) and (a[1][0] == "str" or a[2][0] == "str"):
+            lits.add(a[1][1] if a[1][0] == "str" else a[2][1])
+        else:
+            raise ModelError("lookup", "SIPrefix::from_abbr tests its argument other than by equality with a string literal: %s" % T.show(a), b["span"])
+
+    def abbr_result(sval):
+        hit = []
+        for (g, k, t) in outs:
+            okg = True
+            for at, pol in g:
+                a = T.canon(at)
+                lit = a[1][1] if a[1][0] == "str" else a[2][1]
+                if (sval == lit) != pol:
+                    okg = False
+                    break
+            if okg:
+                hit.append((k, T.canon(t)))
+        return hit
+    want_ab = {abbrs[v][1]: v for v in variants}
+    OTHER = object()
+    for key in sorted(lits | set(want_ab)) + [OTHER]:
+        hit = abbr_result(key)
+        label = "<any other string>" if key is OTHER else repr(key)
+        if len(hit) != 1 or hit[0][0] != "val":
+            ctx.fail("lookup", "from_abbr/%s" % label, "from_abbr(%s) has %d applicable outcomes / diverges" % (label, len(hit)), b["span"])
+            continue
+        got = hit[0][1]
+        if key is not OTHER and key in want_ab:
+            exp_t = ("some", ("variant", SIP, want_ab[key]))
+            ctx.ob("lookup-hit", "from_abbr/%r" % key, got == exp_t,
+                   "from_abbr(%r) = %s, but %r is the abbreviation of %s" % (key, T.show(got), key, want_ab[key]), b["span"])
+        elif key is OTHER:
+            ctx.ob("lookup-default", "from_abbr", got == ("none",), "strings matching no abbreviation do not map to None (%s)" % T.show(got), b["span"])
+        else:
+            ctx.ob("lookup-miss", "from_abbr/%r" % key, got == ("none",),
+                   "from_abbr(%r) = %s although no prefix has that abbreviation" % (key, T.show(got)), b["span"])
+    # from_exp: the gated summary is evaluated for each of the 256 values of i8
+    # (integer semantics with overflow checks, see intdom.py)
+    b = U.body.get(SIP + "::from_exp")
+    if b is None:
+        raise ModelError("anchor", "SIPrefix::from_exp has no body", where)
+    try:
+        outs = T.Evaluator(U, keep_tags=False).summarize(b)
+    except T.Unsupported as x:
+        raise ModelError("lookup", "SIPrefix::from_exp: unsupported construct %s" % x.what, x.sp or b["span"])
+    ie = intdom.IntEval(8, True)
+    want_exp = {discr[v]: v for v in variants}
+    n_none = 0
+    for x in range(-128, 128):
+        inst = "from_exp/%d" % x
+        try:
+            k, t = ie.pick(outs, {0: x})
+        except intdom.Panic as pnc:
+            ctx.fail("lookup-total", inst, "from_exp(%d) panics: %s" % (x, pnc), b["span"])
+            continue
+        except intdom.Unsupported as u:
+            ctx.fail("lookup", inst, "cannot evaluate from_exp(%d): %s" % (x, u), b["span"])
+            continue
+        if k != "val":
+            ctx.fail("lookup-total", inst, "from_exp(%d) diverges" % x, b["span"])
+            continue
+        got = T.canon(t)
+        if x in want_exp:
+            ctx.ob("lookup-hit", inst, got == ("some", ("variant", SIP, want_exp[x])),
+                   "from_exp(%d) = %s, but %d is the exponent of %s" % (x, T.show(got), x, want_exp[x]), b["span"])
+        else:
+            n_none += 1
+            ctx.ob("lookup-miss", inst, got == ("none",), "from_exp(%d) = %s although no prefix has that exponent" % (x, T.show(got)), b["span"], nontrivial=False)
+    ctx.extra["from_exp_values_decided"] = 256
+    ctx.extra["from_exp_none_values"] = n_none
     # 5. iteration order
     vb = U.body.get(SIP + "::VARIANTS")
     if vb is None:
